@@ -300,8 +300,8 @@ Record cstate := {
   c_fp : fparams;
   c_validate : bool;           (* validateChecksum *)
   c_decoded : N;               (* decodedSize *)
-  c_fout : list bytes;         (* regenerated chunks of the current frame, newest first (stands for xxhState) *)
-  c_raw : list bytes;          (* pieces of the raw block being streamed, newest first *)
+  c_fout : bytes;              (* regenerated bytes of the current frame, newest first (stands for xxhState) *)
+  c_raw : bytes;               (* the part already seen of the raw block being streamed, newest first *)
   c_h : H;
   c_hdr : bytes;               (* headerBuffer as filled by the buffer-less API *)
   c_hdrSize : N }.
@@ -323,11 +323,11 @@ Definition c_set_fp (P : dparams) (c : cstate) (fp : fparams) : cstate :=   (* t
 Definition c_set_block (c : cstate) (st : dstage) (e : N) (bt : btype) (rle : N) : cstate :=
   {| c_stage := st; c_expected := e; c_btype := bt; c_rleSize := rle; c_fp := c_fp c; c_validate := c_validate c;
      c_decoded := c_decoded c; c_fout := c_fout c; c_raw := c_raw c; c_h := c_h c; c_hdr := c_hdr c; c_hdrSize := c_hdrSize c |}.
-Definition c_after_block (c : cstate) (e : N) (out : bytes) (raw : list bytes) (h : H) : cstate :=
+Definition c_after_block (c : cstate) (e : N) (out : bytes) (raw : bytes) (h : H) : cstate :=
   {| c_stage := c_stage c; c_expected := e; c_btype := c_btype c; c_rleSize := c_rleSize c; c_fp := c_fp c; c_validate := c_validate c;
-     c_decoded := c_decoded c + lenN out; c_fout := out :: c_fout c; c_raw := raw; c_h := h; c_hdr := c_hdr c; c_hdrSize := c_hdrSize c |}.
+     c_decoded := c_decoded c + lenN out; c_fout := rev_append out (c_fout c); c_raw := raw; c_h := h; c_hdr := c_hdr c; c_hdrSize := c_hdrSize c |}.
 
-Definition frame_out (c : cstate) : bytes := concat (rev' (c_fout c)).
+Definition frame_out (c : cstate) : bytes := rev' (c_fout c).
 Definition is_block_stage (c : cstate) : bool :=
   match c_stage c with DBlock | DLastBlock => true | _ => false end.
 Definition is_skip (c : cstate) : bool := match c_stage c with DSkipFrame => true | _ => false end.
@@ -340,6 +340,38 @@ Definition next_with_input (c : cstate) (inputSize : N) : N :=
     | _ => c_expected c
     end
   else c_expected c.
+
+(* the switch(dctx->bType) of stages decompressBlock / decompressLastBlock:
+   -> new block-decoder state, regenerated bytes, what remains expected of this block, raw bytes seen so far *)
+Definition block_body (c : cstate) (dstCap : N) (src : bytes) (srcSize : N) : mres (H * bytes * N * bytes) :=
+  match c_btype c with
+  | BtCompressed =>
+      let* d := of_res (b_cblock (fp_window (c_fp c)) (fp_blockMax (c_fp c)) (c_h c) src) in
+      fail_if (dstCap <? lenN (snd d)) with EdstSize_tooSmall;
+      MOk (fst d, snd d, 0, [])
+  | BtRaw =>
+      fail_if (dstCap <? srcSize) with EdstSize_tooSmall;
+      let e' := c_expected c - srcSize in
+      if e' =? 0 then MOk (b_raw (c_h c) (rev' (rev_append src (c_raw c))), src, 0, [])
+      else MOk (c_h c, src, e', rev_append src (c_raw c))
+  | BtRle =>
+      fail_if (dstCap <? c_rleSize c) with EdstSize_tooSmall;
+      MOk (b_rle (c_h c) (nthN src 0 0) (c_rleSize c), repeat_byte (nthN src 0 0) (c_rleSize c), 0, [])
+  | BtReserved => MErr Ecorruption
+  end.
+
+(* the code after the switch: size check, accounting, next stage *)
+Definition block_finish (c : cstate) (r : H * bytes * N * bytes) : mres (cstate * bytes) :=
+  let '(h', out, e', raw') := r in
+  fail_if (fp_blockMax (c_fp c) <? lenN out) with Ecorruption;
+  let c1 := c_after_block c e' out raw' h' in
+  if 0 <? e' then MOk (c1, out)
+  else match c_stage c with
+       | DLastBlock =>
+           fail_if (andb (negb (fp_fcs (c_fp c) =? UNKNOWN)) (negb (c_decoded c1 =? fp_fcs (c_fp c)))) with Ecorruption;
+           if fp_checksum (c_fp c) then MOk (c_goto c1 DChecksum 4, out) else MOk (c_goto c1 DGetFHSize 0, out)
+       | _ => MOk (c_goto c1 DDecodeBH BHS, out)
+       end.
 
 (* ZSTD_decompressContinue(dctx, dst, dstCap, src, srcSize); [src] carries the bytes actually read
    (nothing is read in stage skipFrame, where only [srcSize] matters) *)
@@ -368,32 +400,7 @@ Definition dcontinue (P : dparams) (c : cstate) (dstCap : N) (src : bytes) (srcS
         else MOk (c_set_block c DGetFHSize 0 (bp_type bp) (bp_orig bp), [])
       else MOk (c_set_block c DDecodeBH BHS (bp_type bp) (bp_orig bp), [])
   | DBlock | DLastBlock =>
-      let* r :=
-        match c_btype c with
-        | BtCompressed =>
-            let* d := of_res (b_cblock (fp_window (c_fp c)) (fp_blockMax (c_fp c)) (c_h c) src) in
-            fail_if (dstCap <? lenN (snd d)) with EdstSize_tooSmall;
-            MOk (fst d, snd d, 0, [])
-        | BtRaw =>
-            fail_if (dstCap <? srcSize) with EdstSize_tooSmall;
-            let e' := c_expected c - srcSize in
-            if e' =? 0 then MOk (b_raw (c_h c) (concat (rev' (src :: c_raw c))), src, 0, [])
-            else MOk (c_h c, src, e', src :: c_raw c)
-        | BtRle =>
-            fail_if (dstCap <? c_rleSize c) with EdstSize_tooSmall;
-            MOk (b_rle (c_h c) (nthN src 0 0) (c_rleSize c), repeat_byte (nthN src 0 0) (c_rleSize c), 0, [])
-        | BtReserved => MErr Ecorruption
-        end in
-      let '(h', out, e', raw') := r in
-      fail_if (fp_blockMax (c_fp c) <? lenN out) with Ecorruption;
-      let c1 := c_after_block c e' out raw' h' in
-      if 0 <? e' then MOk (c1, out)
-      else match c_stage c with
-           | DLastBlock =>
-               fail_if (andb (negb (fp_fcs (c_fp c) =? UNKNOWN)) (negb (c_decoded c1 =? fp_fcs (c_fp c)))) with Ecorruption;
-               if fp_checksum (c_fp c) then MOk (c_goto c1 DChecksum 4, out) else MOk (c_goto c1 DGetFHSize 0, out)
-           | _ => MOk (c_goto c1 DDecodeBH BHS, out)
-           end
+      let* r := block_body c dstCap src srcSize in block_finish c r
   | DChecksum =>
       fail_if (andb (c_validate c) (negb (le32 src =? b_hash (frame_out c)))) with Echecksum_wrong;
       MOk (c_goto c DGetFHSize 0, [])
